@@ -29,9 +29,10 @@ RULE = ('forms: matrices from tables.rand_spec (dims 1..4, all value kinds incl.
         'row arrays float/int, list of row dicts keyed (0, col) (with / without zeros), list of sparse rows (stored zeros, '
         'unsorted), scipy csr/csc (raw arrays with stored zeros and unsorted indices)/coo (shuffled, explicit zeros, '
         'duplicates)/lil/dok/bsr each also WITH explicitly stored zeros, lists of dok rows (a dok_matrix is a dict: another converter), '
-        'mixed-layout row lists with a dok or a non-dok first row, int dtype}; of every constructed table the queries that look at '
+        'mixed-layout row lists with a dok or a non-dok first row}; every form that carries a dtype (ndarray, row arrays, every scipy layout, '
+        'sparse / dok / mixed rows) in a random dtype that represents its values exactly: float64/32/16, int8..64, uint8..64, bool; of every constructed table the queries that look at '
         'stored entries are asked before anything reads nnz: matrix_data.nnz, nonzero(), min per axis and overall, against the plain '
-        'non-zero cells and against a twin built from the dense array; then the table is transformed in place and the untouched input object must construct the described table again; ctor: the same forms with ids duplicated anywhere on an axis, one id too '
+        'non-zero cells and against a twin built from the float64 dense array, with which it must also compare == / != in both directions, hold float64 and export to_json; then the table is transformed in place and the untouched input object must construct the described table again; ctor: the same forms with ids duplicated anywhere on an axis, one id too '
         'few / too many, an explicit zero at a coordinate without an id as the only fault, metadata too short / too long / all-empty of the wrong size / holding a non-mapping (truthy or '
         'falsy), under the default profile (a quarter after an errstate block left by an exception) or with 1-2 kinds set to ignore/warn; adj: 1-8 records over <= 3x3 ids with '
         'repeated pairs, zero and negative values, with / without the header, with comment / blank / short lines, as '
@@ -55,15 +56,38 @@ SPARSE_LAYOUTS = ['csr', 'csc', 'coo', 'lil', 'dok', 'bsr']
 
 
 # ---------------------------------------------------------------- input descriptors -> python objects
+DTYPES = ['float64', 'float32', 'float16', 'int8', 'int16', 'int32', 'int64', 'uint8', 'uint16', 'uint32', 'uint64', 'bool']
+_ALIAS = {'float': 'float64', 'int': 'int64'}
+
+
+def np_dtype(name):
+    return np.dtype(_ALIAS.get(name, name))
+
+
+def dtype_fits(name, values, sparse=False):
+    """the values are exactly representable in the dtype (and scipy.sparse supports it)"""
+    dt = np_dtype(name)
+    if sparse and dt == np.float16:
+        return False
+    a = np.array(list(values), dtype=float)
+    if dt.kind == 'b':
+        return bool(np.all((a == 0) | (a == 1)))
+    if dt.kind in 'iu':
+        if not np.all(a == np.floor(a)):
+            return False
+        info = np.iinfo(dt)
+        return bool(np.all(a >= info.min) and np.all(a <= min(info.max, 2 ** 53)))
+    with np.errstate(over='ignore'):
+        return bool(np.all(a.astype(dt).astype(float) == a))
+
+
+def pick_dtype(rng, values, sparse=False):
+    ok = [d for d in DTYPES if dtype_fits(d, values, sparse)]
+    return 'float64' if rng.random() < 0.35 else rng.choice(ok)
+
+
 def _arr(rows, nr, nc, dtype):
-    a = np.array(rows, dtype=float).reshape(nr, nc)
-    if dtype == 'int':
-        return a.astype(np.int64)
-    if dtype == 'bool':
-        return a.astype(bool)
-    if dtype == 'int32':
-        return a.astype(np.int32)
-    return a
+    return np.array(rows, dtype=float).reshape(nr, nc).astype(np_dtype(dtype))
 
 
 def _raw(fmt, nr, nc, entries, dtype):
@@ -77,7 +101,7 @@ def _raw(fmt, nr, nc, entries, dtype):
         indices += [i for i, _ in s]
         data += [v for _, v in s]
         indptr.append(len(indices))
-    arrs = (np.array(data, dtype=int if dtype == 'int' else float), np.array(indices, dtype=np.int32),
+    arrs = (np.array(data, dtype=float).astype(np_dtype(dtype)), np.array(indices, dtype=np.int32),
             np.array(indptr, dtype=np.int32))
     return csr_matrix(arrs, shape=(nr, nc)) if fmt == 'csr' else csc_matrix(arrs, shape=(nr, nc))
 
@@ -100,25 +124,27 @@ def make_input(inp):
         return [{(a, j): v for a, j, v in row} for row in inp[1]], {}
     if k == 'sparserows':
         out = []
+        dt = np_dtype(inp[2] if len(inp) > 2 else 'float64')
         for w, cv in inp[1]:
-            arrs = (np.array([v for _, v in cv], dtype=float), np.array([c for c, _ in cv], dtype=np.int32),
+            arrs = (np.array([v for _, v in cv], dtype=float).astype(dt), np.array([c for c, _ in cv], dtype=np.int32),
                     np.array([0, len(cv)], dtype=np.int32))
             out.append(csr_matrix(arrs, shape=(1, w)))
         return out, {}
     if k in ('dokrows', 'mixedrows'):
         # list of 1 x w sparse rows in the layouts named per row ('dok' first for 'dokrows')
         out = []
+        dt = np_dtype(inp[2] if len(inp) > 2 else 'float64')
         for lay, w, cv in inp[1]:
-            arrs = (np.array([v for _, v in cv], dtype=float), np.array([c for c, _ in cv], dtype=np.int32),
+            arrs = (np.array([v for _, v in cv], dtype=float).astype(dt), np.array([c for c, _ in cv], dtype=np.int32),
                     np.array([0, len(cv)], dtype=np.int32))
             m = csr_matrix(arrs, shape=(1, w))
             if lay == 'dok':
-                d = dok_matrix((1, w))
+                d = dok_matrix((1, w), dtype=dt)
                 for c, v in cv:
                     if v != 0:
                         d[0, c] = v
                     else:
-                        dict.__setitem__(d._dict if hasattr(d, '_dict') else d, (0, c), 0.0)
+                        dict.__setitem__(d._dict if hasattr(d, '_dict') else d, (0, c), dt.type(0))
                 m = d
             elif lay != 'csr':
                 m = m.asformat(lay)
@@ -128,13 +154,13 @@ def make_input(inp):
         _, layout, dtype, nr, nc, entries = inp
         if layout in ('csr', 'csc'):
             return _raw(layout, nr, nc, entries, dtype), {}
-        coo = coo_matrix((np.array([v for _, _, v in entries], dtype=int if dtype == 'int' else float),
+        coo = coo_matrix((np.array([v for _, _, v in entries], dtype=float).astype(np_dtype(dtype)),
                           (np.array([r for r, _, _ in entries], dtype=int), np.array([c for _, c, _ in entries], dtype=int))),
                          shape=(nr, nc))
         if layout == 'coo':
             return coo, {}
         zeros = [(r, c) for r, c, v in entries if v == 0]
-        nzc = coo_matrix((np.array([v for _, _, v in entries if v != 0], dtype=float),
+        nzc = coo_matrix((np.array([v for _, _, v in entries if v != 0], dtype=float).astype(np_dtype(dtype)),
                           (np.array([r for r, _, v in entries if v != 0], dtype=int),
                            np.array([c for _, c, v in entries if v != 0], dtype=int))), shape=(nr, nc))
         if layout == 'bsr':
@@ -219,7 +245,39 @@ def applicable(v, M):
     return True
 
 
+def input_dtype(inp):
+    k = inp[0]
+    if k in ('array', 'rowarrays'):
+        return _ALIAS.get(inp[1], inp[1])
+    if k == 'sparse':
+        return _ALIAS.get(inp[2], inp[2])
+    if k in ('sparserows', 'dokrows', 'mixedrows'):
+        return inp[2] if len(inp) > 2 else 'float64'
+    return None
+
+
 def encode_matrix(rng, v, M):
+    """the matrix M in input variant v; every form that carries a dtype gets one in which all its values
+    (and the cell sums) are exactly representable: float64/32/16, int8..64, uint8..64, bool"""
+    inp = _encode_matrix(rng, v, M)
+    k = inp[0]
+    if k not in ('array', 'rowarrays', 'sparse', 'sparserows', 'dokrows', 'mixedrows'):
+        return inp
+    if v in ('array_int', 'array_bool', 'rowarrays_int', 'csr_int') and rng.random() < 0.5:
+        return inp
+    vals = [e[2] for e in entries_of(inp)] + [x for row in M for x in row]
+    dt = pick_dtype(rng, vals, sparse=k not in ('array', 'rowarrays'))
+    inp = list(inp)
+    if k in ('array', 'rowarrays'):
+        inp[1] = dt
+    elif k == 'sparse':
+        inp[2] = dt
+    else:
+        inp = inp[:2] + [dt]
+    return inp
+
+
+def _encode_matrix(rng, v, M):
     """the matrix M (list of rows of floats, at least 1x1) in input variant v"""
     nr, nc = len(M), len(M[0])
     cells = [(i, j, M[i][j]) for i in range(nr) for j in range(nc)]
@@ -305,7 +363,7 @@ def encode_matrix(rng, v, M):
         es = nz + some_zeros()
         return ['sparse', v[:3], 'float', nr, nc, es]
     if v == 'coo_dups_zeros':
-        return ['sparse', 'coo', 'float', nr, nc, encode_matrix(rng, 'triples_dups', M)[1]]
+        return ['sparse', 'coo', 'float', nr, nc, _encode_matrix(rng, 'triples_dups', M)[1]]
     raise ValueError(v)
 
 
@@ -418,25 +476,32 @@ def reuse_check(data, kw, t, oids, sids, omd, smd, ty, before, snap):
     return [untouched, int(T.norm_snap(T.snapshot(again)) == snap)]
 
 
-def _ctor_obs(inp, oids, sids, omd, smd, ty):
+def _ctor_obs(inp, oids, sids, omd, smd, ty, full=True):
     """construct; ask the zero-sensitive queries of the fresh table and of a twin built from the plain
     dense array of the described values -> observable, table"""
     data, kw = make_input(inp)
     before = freeze(data)
     t = Table(data, list(oids), list(sids), _md(omd), _md(smd), type=ty, **kw)
     t._c17_reuse = (data, kw, before)
-    if t.shape != (len(oids), len(sids)) or len(set(oids)) != len(oids) or len(set(sids)) != len(sids):
-        # accepted only because the profile was changed: per-id queries make no sense, no well-formed twin
+    if not full or t.shape != (len(oids), len(sids)) or len(set(oids)) != len(oids) or len(set(sids)) != len(sids):
+        # (possibly) accepted only because the profile was changed: per-id queries make no sense, no well-formed twin
         stored = int(t.matrix_data.nnz)
         t._c17_reuse = None
-        return ['ok', T.norm_snap(T.snapshot(t)), [stored, 1, 1, 1]], t
+        return ['ok', T.norm_snap(T.snapshot(t)), [stored, 1, 1, 1, int(str(t.matrix_data.dtype) == 'float64'), 1, 1]], t
     zq = zero_queries(t)
     snap = T.norm_snap(T.snapshot(t))
     dense = np.array(snap['mat'], dtype=float).reshape(t.shape)
-    twin = Table(dense, list(oids), list(sids))
+    twin = Table(dense, list(oids), list(sids), _md(omd), _md(smd), type=ty)
     zt = zero_queries(twin)
     cells = sorted([str(oids[i]), str(sids[j])] for i in range(dense.shape[0]) for j in range(dense.shape[1]) if dense[i, j] != 0)
-    return ['ok', snap, [zq[0], int(zq[1] == cells), int(zq[2] == zt[2]), int(zq == zt)]], t
+    dtype_ok = int(str(t.matrix_data.dtype) == 'float64')
+    eq_twin = int(bool(t == twin) and bool(twin == t) and not bool(t != twin) and not bool(twin != t))
+    try:
+        json.loads(t.to_json('c17'))
+        json_ok = 1
+    except Exception:
+        json_ok = 0
+    return ['ok', snap, [zq[0], int(zq[1] == cells), int(zq[2] == zt[2]), int(zq == zt), dtype_ok, eq_twin, json_ok]], t
 
 
 def reset_profile():
@@ -565,7 +630,7 @@ def _run_impl(c):
         with warnings.catch_warnings():
             warnings.simplefilter('ignore')
             try:
-                o, t = _ctor_obs(c['inp'], c['oids'], c['sids'], c['omd'], c['smd'], c['type'])
+                o, t = _ctor_obs(c['inp'], c['oids'], c['sids'], c['omd'], c['smd'], c['type'], full=not c.get('profile'))
             except Exception as e:
                 return ['err', T.err_code(e)]
             if getattr(t, '_c17_reuse', None) and not c.get('profile'):
@@ -661,7 +726,7 @@ def dec_result(tree, cd, zq=False):
         return ['ok', snap]
     # every converter ends with eliminate_zeros (the constructor does it for a scipy matrix): the
     # table holds exactly the non-zero cells of the model's matrix and answers like its dense twin
-    return ['ok', snap, [sum(1 for row in raw['mat'] for v in row if v != 0), 1, 1, 1]] + ([[1, 1]] if zq == 'ctor' else [])
+    return ['ok', snap, [sum(1 for row in raw['mat'] for v in row if v != 0), 1, 1, 1, 1, 1, 1]] + ([[1, 1]] if zq == 'ctor' else [])
 
 
 def decode(tree, c):
@@ -927,7 +992,13 @@ def zero_fails(v, o, mat):
     fails = []
     if len(o) < 3:
         return fails
-    stored, nz_ok, min_ok, all_ok = o[2]
+    stored, nz_ok, min_ok, all_ok, dtype_ok, eq_twin, json_ok = o[2]
+    if not dtype_ok:
+        fails.append('input form %s: the matrix of the table is not float64' % v)
+    if not eq_twin:
+        fails.append('input form %s: the table does not compare equal (==, != in both directions) to the table built from the float64 dense array' % v)
+    if not json_ok:
+        fails.append('input form %s: to_json of the constructed table fails' % v)
     want = sum(1 for row in mat for x in row if x != 0)
     if stored != want:
         fails.append('input form %s: the fresh table stores %d entries for %d non-zero cells (explicit zeros kept)' % (v, stored, want))
@@ -935,7 +1006,7 @@ def zero_fails(v, o, mat):
         fails.append('input form %s: nonzero() does not list exactly the non-zero cells' % v)
     if not min_ok:
         fails.append('input form %s: min() differs from the table built from the dense array' % v)
-    return fails[:2]
+    return fails[:3]
 
 
 def oracle(c, obs):
@@ -1062,8 +1133,11 @@ def classify(c):
     tags = ['kind:' + k]
     if k == 'forms':
         tags += ['form:' + v for v in c['variants']]
+        tags += ['dtype:' + d for d in (input_dtype(i) for i in c['inputs']) if d]
     elif k == 'ctor':
         tags.append('form:' + c['variant'])
+        if input_dtype(c['inp']):
+            tags.append('dtype:' + input_dtype(c['inp']))
         tags += ['malformed:' + m.split(':')[0] for m in c['mal']]
         if c.get('profile'):
             tags.append('profile:changed')
